@@ -110,6 +110,8 @@ type Server struct {
 	WithVerify bool
 	// AuthHeader: if non-empty, actions carry this header name with a unique value.
 	ActionHeaders bool
+	// ActionAuthorization: with ActionHeaders, every action also carries its own Authorization header.
+	ActionAuthorization bool
 	// ActionContentType: with ActionHeaders, upload actions also prescribe this Content-Type.
 	ActionContentType string
 	// LocksUnsupported: answer every locks endpoint with this status (404/501) when non-zero.
@@ -397,6 +399,9 @@ func (s *Server) batch(req *Request, f *Fault, jsonAnswer func(int, any)) {
 			of := &Offer{Token: tok, Repo: req.Repo, Oid: oid, Op: kind, Href: href, Batch: bn}
 			if s.ActionHeaders {
 				of.Header = map[string]string{"X-Verif-Action": "tok-" + tok}
+				if s.ActionAuthorization {
+					of.Header["Authorization"] = "Token act-" + tok
+				}
 				if s.ActionContentType != "" && kind == "upload" {
 					of.Header["Content-Type"] = s.ActionContentType
 				}
